@@ -13,3 +13,25 @@ func verifWatch(filename string, done <-chan bool, action func()) (bool, error) 
 	}
 	return true, VerifWatch(filename, done, action)
 }
+
+// VerifYield / VerifBlock are statement-level scheduling points used by the
+// verification harness: it compiles yield-instrumented COPIES of some files
+// (generated at check time, never committed) that call VerifY / VerifBlocked.
+var (
+	VerifYield func(site string)
+	VerifBlock func(site string)
+)
+
+// VerifY is called before a statement of an instrumented function.
+func VerifY(site string) {
+	if VerifYield != nil {
+		VerifYield(site)
+	}
+}
+
+// VerifBlocked is called while an instrumented function waits for a lock.
+func VerifBlocked(site string) {
+	if VerifBlock != nil {
+		VerifBlock(site)
+	}
+}
